@@ -554,7 +554,9 @@ func (p *Parent) finish(start time.Time, m *Merged) int {
 	}
 	b, _ := json.MarshalIndent(ev, "", " ")
 	os.MkdirAll(filepath.Join(p.Root, "evidence"), 0o755)
-	_ = os.WriteFile(filepath.Join(p.Root, "evidence", id+".json"), b, 0o644)
+	if os.Getenv("VERIF_NOEVIDENCE") == "" {
+		_ = os.WriteFile(filepath.Join(p.Root, "evidence", id+".json"), b, 0o644)
+	}
 
 	if exit == 0 {
 		floor := 2
